@@ -5,7 +5,7 @@ commit cited for the fallback estimate; warnings compared as sets of metric name
 import itertools
 import warnings
 
-from vf.harness import use_world, outcome, freeze, sample
+from vf.harness import use_world, outcome, freeze, sample, guarded
 from vf.simk.world import World, PAGESIZE
 
 ID = "C08"
@@ -180,7 +180,7 @@ def worker(chunk):
     w = World(ncpus=2)
     use_world(w)
     w.logging = False
-    return [run_case(c, w) for c in cases]
+    return [guarded(run_case, c, w) for c in cases]
 
 
 def build_cases(thorough):
@@ -230,5 +230,5 @@ def run(ctx):
 def replay(ctx, case):
     w = World(ncpus=2)
     use_world(w)
-    bad = run_case(tuple(case), w)
+    bad = guarded(run_case, tuple(case), w)
     return {"violated": bool(bad), "viols": bad}
